@@ -11,13 +11,16 @@ INV = "INVARIANTS TypeOK Converged LearnsLive ForgetsDead SelfListed PeriodResto
 
 # name: (Addr, Gaps, D, MaxEvents, MaxFails)
 SCEN = {
-    "pair_q":     ("Addr2", "GapsFixed2", 1, 3, 1),          # quick walk / quick timed model check
-    "pair_t":     ("Addr2", "GapsJitter2", 1, 3, 2),         # thorough walk: jitter, two failed publishes
-    "restart":    ("AddrRestart", "GapsRestartF", 0, 4, 1),  # thorough walk: a process replaced by a new id on the same address
+    "pair_q":     ("Addr2", "GapsFixed2", 1, 3, 0),          # quick walk / quick timed model check: no publish failures
+    "solo":       ("Addr1", "GapsJitter1", 1, 2, 3),         # walk: one node and its own looped-back heartbeat, up to 3 failed publishes
+    "pairfail":   ("Addr2", "GapsFixed2", 1, 2, 1),          # walk: two nodes, one failed publish, no leave
+    "pairfail_mc": ("Addr2", "GapsFixed2", 1, 3, 2),         # model check only
+    "pair_t":     ("Addr2", "GapsJitter2", 1, 4, 0),         # thorough walk: jitter
+    "restart":    ("AddrRestart", "GapsRestartF", 0, 4, 0),  # thorough walk: a process replaced by a new id on the same address
     "trio":       ("Addr3", "GapsFixed3", 0, 3, 0),          # thorough walk: three nodes, same-instant delivery in any order
-    "pair_mc":    ("Addr2", "GapsJitter2", 2, 4, 3),         # thorough model check only: jitter, delay up to 2 ticks, 3 failures
-    "restart_mc": ("AddrRestart", "GapsRestart", 1, 4, 1),   # thorough model check only
-    "trio_mc":    ("Addr3", "GapsFixed3", 0, 4, 1),          # thorough model check only
+    "pair_mc":    ("Addr2", "GapsJitter2", 2, 6, 0),         # thorough model check only: jitter, delay up to 2 ticks
+    "restart_mc": ("AddrRestart", "GapsRestart", 1, 4, 0),   # thorough model check only
+    "trio_mc":    ("Addr3", "GapsFixed3", 0, 4, 0),          # thorough model check only
 }
 
 
@@ -36,18 +39,18 @@ def write(name, text):
 # nb/onb: an implementation that backs off while publishes fail (callbacks not compared)
 VARIANTS = (("c", "TRUE", "TRUE", "FALSE"), ("n", "TRUE", "FALSE", "FALSE"), ("oc", "FALSE", "TRUE", "FALSE"), ("on", "FALSE", "FALSE", "FALSE"),
             ("nb", "TRUE", "FALSE", "TRUE"), ("onb", "FALSE", "FALSE", "TRUE"))
-for s in ("pair_q", "pair_t", "restart", "trio"):
+for s in ("pair_q", "solo", "pairfail", "pair_t", "restart", "trio"):
     for v, closed, cb, bo in VARIANTS:
         if bo == "TRUE" and SCEN[s][4] == 0:
             continue
         # replayed graph: the quiet counter is frozen (it would only multiply the states)
         write(f"MC_Peers_{s}_{v}.cfg", "SPECIFICATION Spec\n" + consts(s, closed, cb, "FALSE", bo) + INV + "ACTION_CONSTRAINT Dump\nVIEW View\n")
-for s in ("pair_q", "pair_mc", "restart_mc", "trio_mc"):
+for s in ("pair_q", "solo", "pairfail_mc", "pair_mc", "restart_mc", "trio_mc"):
     # the timed invariants on the same (or a larger) bound
     write(f"MC_Peers_{s}_timed.cfg", "SPECIFICATION Spec\n" + consts(s, "TRUE", "TRUE", "TRUE") + INV + "VIEW View\n")
 # ... and for an implementation with backoff (model check only)
-write("MC_Peers_pair_q_backoff_timed.cfg", "SPECIFICATION Spec\n" + consts("pair_q", "TRUE", "TRUE", "TRUE", "TRUE") + INV + "VIEW View\n")
-for s in ("pair_q", "pair_mc", "restart_mc", "trio"):
+write("MC_Peers_pairfail_mc_backoff_timed.cfg", "SPECIFICATION Spec\n" + consts("pairfail_mc", "TRUE", "TRUE", "TRUE", "TRUE") + INV + "VIEW View\n")
+for s in ("solo", "pairfail_mc", "pair_mc", "restart_mc", "trio"):
     # liveness under fairness (no VIEW: act is part of the behaviour graph)
     write(f"MC_Peers_{s}_live.cfg", "SPECIFICATION FairSpec\n" + consts(s, "TRUE", "TRUE", "FALSE") + "INVARIANTS TypeOK\nPROPERTIES EventuallyAgreed HashCatchesUp\n")
 
